@@ -1,7 +1,7 @@
 from props import COMMON_TRUSTED
 
 SPEC = {
-    "translators": ["tr_reader.py", "tr_layouts.py"],
+    "translators": ["tr_reader.py", "tr_layouts.py", "tr_cffdict.py"],
     "harness": "c15",
     "cases": {"quick": 15000, "thorough": 400000},
     "profiles": {"quick": ["debug", "release"], "thorough": ["debug", "release"]},
@@ -12,11 +12,22 @@ SPEC = {
         "Operand::write / Op::read / offset_size / U24Be::write / PascalString::write / the short-loca guards, into "
         "coq/Gen/TableLayouts.v on every run; compatibility of the two sides is decided in Coq, not in the translator) "
         "and tr_reader.py",
+        "translators/tr_cffdict.py (regenerates coq/Gen/CffDictTables.v on every run from src/cff.rs and src/cff/cff2.rs: the "
+        "discriminants of enum Operator, the value -> variant table of Operator::try_from, the operand constants and the six "
+        "DictDefault tables (cff and cff2 Top/Font/Private), the operator sets and the Encoding bound of integer_to_offset, "
+        "MAX_OPERANDS of both modules, END_OF_FLOAT_FLAG, the width test of Operator::write, the Real prefix byte; compares the "
+        "text of Dict::read_dep, Dict::write_dep, Operator::write, DictDelta::get, Dict::iter, op2, ok_real, the Operand / Real type "
+        "definitions with their derived PartialEq, ReadCtxt::read_until_nibble and bytes_available against the text the hand "
+        "model Model/CffDict.v was written after and reports BROKEN when one of them changed)",
         "hand-written models (Model/Tables.v, Model/Cff.v) of the variable-size structure around the layouts: "
         "maxp version split, hmtx, loca (owned writer), name (borrowed and owned writers, placeholders resolved), "
-        "OS/2 assembly, SimpleGlyph read/write, CFF operands, offset arrays and INDEX; tied to the code only by correspondence",
+        "OS/2 assembly, SimpleGlyph read/write, CFF operands, offset arrays and INDEX; Model/CffDict.v: Op::read with operator "
+        "validation, integer_to_offset, Dict::read_dep, Dict::write_dep with DictDelta, Operator::write, Operand::write "
+        "(tables generated, control flow hand-written and shape-checked by tr_cffdict.py); tied to the code only by correspondence",
+        "ocaml/c15/drv.ml: the DICT judge's reference encoder/decoder, default tables, offset operators and operator list, "
+        "written by hand after Adobe Technical Note #5176 and the OpenType CFF2 chapter (independent of the extracted model)",
         "verif-hooks feature of allsorts (src/verif.rs -> cff::verif_hooks): add-only wrappers around the private "
-        "Op::read, owned INDEX writers, serialise_offset_array, offset_size",
+        "Op::read, owned INDEX writers, serialise_offset_array, offset_size, Real bytes accessor/constructor, Dict from entries",
     ],
     "assumptions": [
         "buffers are shorter than 2^64 bytes; usize is 64 bits",
@@ -25,15 +36,26 @@ SPEC = {
         "head: the round trip is stated for magic_number = 0x5F0F3CF5 (the reader rejects anything else)",
         "OS/2: the round trip is stated for well-nested version tails (v5 => v2-4 => v1, v2-4 => v0), read with the "
         "table length that was written; it holds up to the declared version normalisation",
+        "CFF DICTs: the round trip is stated for readable-normal dicts (operators TryFrom knows, i32 operands, reals whose first "
+        "0xF nibble is in their last byte, at most max_operands operands, Offset exactly where integer_to_offset puts it) and is "
+        "proved to cover everything Dict::read_dep can return; written DICTs are shorter than 2^64 bytes; DictDelta holds only "
+        "Offset operands (DictDelta::push asserts it)",
     ],
     "rule": "cases per kind (see harness/src/bin/c15.rs gen): struct values with every field drawn from {min, max, 0, "
             "near-min, near-max, small, uniform} of its type -> write -> read (9 straight-line layouts, maxp, OS/2 incl. "
             "ill-nested tails, hmtx, loca owned writer incl. odd / > 131070 offsets, owned name tables incl. strings "
             "straddling 64K, CFF integers around every range edge, offset arrays around 2^8/2^16/2^24/2^32, owned INDEX "
             "incl. off_size boundaries, simple glyphs incl. deltas beyond i16, U24, Pascal strings, CFF2 INDEX counts around "
-            "65536); bytes (valid, then 40% truncated / bit-flipped / boundary-overwritten / extended) -> parse -> write -> "
+            "65536; CFF DICTs of the six kinds (cff/cff2 Top, Font, Private), 30% of the cases: dicts built from operator/operand "
+            "structure — every operator TryFrom accepts, operand counts 0..=max+1 with empty lists, proper prefixes and extensions of "
+            "the defaults frequent, default and default+-1 values, integers at every encoding edge (+-107/108, +-1131/1132, +-32768, "
+            "i32 extremes) in shortest and longer forms, well-formed and odd reals, offset operators with 0/1/2 (predefined "
+            "encodings), blend-style sequences followed by an operator without operands — as bytes -> read -> write -> read -> write "
+            "(25% malformed: reserved bytes, truncated operands, undefined operators, too many operands, random bytes) and as "
+            "entries (+ delta) -> write -> read, incl. non-normal operand kinds and ill-formed reals); bytes (valid, then 40% truncated / bit-flipped / boundary-overwritten / extended) -> parse -> write -> "
             "parse for head, hhea, maxp, OS/2, hmtx, name, post header, records, INDEX, glyphs; the corpus adds every "
-            "head/hhea/maxp/name/post/OS/2/hmtx/loca/glyf/CFF table of every fixture font (parse-write-parse). "
+            "head/hhea/maxp/name/post/OS/2/hmtx/loca/glyf/CFF table of every fixture font (parse-write-parse) and every Top, Font "
+            "and Private DICT of the 11 CFF/CFF2 fixture fonts (live from the fixture and as bytes through the model). "
             "distinct = distinct input lines; histogram = kind x result class",
     "gen_timeout": 1200,
     "avm_timeout": 1200,
